@@ -120,6 +120,11 @@ def nested(depth, kind):
         return '[' * depth + 'a' + ']' * depth + '\n'
     if kind == 'emph':
         return '*a ' * depth + 'b' + '*' * depth + '\n'
+    if kind == 'altlist':
+        # nested lists whose sibling markers alternate: every level ends with an item of another marker type
+        return ''.join(' ' * (2 * i) + '- a\n' + ' ' * (2 * i) + '+ b\n' for i in range(depth))
+    if kind == 'altlist2':
+        return ''.join(' ' * (3 * i) + '1. a\n' + ' ' * (3 * i) + '1) b\n' for i in range(depth))
     if kind == 'mixed':
         return ''.join('> ' * i + ' ' * 0 + '- ' * 0 + 'a\n' for i in range(depth))
     return 'a\n'
@@ -167,8 +172,8 @@ def _cases(ctx):
             cases.append({'renderer': ['HtmlRenderer', 'MarkdownRenderer', 'XWiki20Renderer', 'JiraRenderer'][len(cases) % 4],
                           'kwargs': {}, 'text': '\n'.join(tup) + '\n'})
     for depth in (10, 50, 100):
-        for kind in ('quote', 'list', 'bracket', 'emph', 'mixed'):
-            for rn, kw in (cs if depth == 100 else cs[:3]):
+        for kind in ('quote', 'list', 'bracket', 'emph', 'mixed', 'altlist', 'altlist2'):
+            for rn, kw in (cs if depth == 100 and not kind.startswith('alt') else cs[:3]):
                 cases.append({'renderer': rn, 'kwargs': kw, 'text': nested(depth, kind), 'depth': depth})
     return cases
 
